@@ -3,6 +3,7 @@ import Driver.ConeIO
 import ClarabelModel.Collapse
 import ClarabelModel.ProblemData
 import ClarabelModel.Equil
+import ClarabelModel.EquilUnscale
 
 open Clarabel Driver Equil
 
@@ -28,6 +29,18 @@ def handleC10 (ch : String) (kv : KV) : String :=
       fmtME fmtEquil (do
         let d ← ProblemData.new P q A b cs false false (1e20 : Float)
         equilibrate d d.cones st)
+    | _, _, _, _, _, _ => "bad-request"
+  | "equil.unscale_roundtrip" =>
+    match kv.csc "P", kv.floats "q", kv.csc "A", kv.floats "b", kv.cones "cones", kvSettings kv with
+    | some P, some q, some A, some b, some cs, some st =>
+      match kv.floats "ux", kv.floats "us", kv.floats "uz", kv.float "tau", kv.float "kappa" with
+      | some ux, some us, some uz, some tau, some kappa =>
+        fmtME (fun (v : Residuals.Vars Float) =>
+            s!"x={fmtFloats v.x} s={fmtFloats v.s} z={fmtFloats v.z} tau={fmtFloat v.τ} kappa={fmtFloat v.κ}") (do
+          let d ← ProblemData.new P q A b cs false false (1e20 : Float)
+          let d' ← equilibrate d d.cones st
+          pure (unscaleRoundtrip d'.equilibration ux us uz tau kappa))
+      | _, _, _, _, _ => "bad-request"
     | _, _, _, _, _, _ => "bad-request"
   | "equil.rectify" =>
     match kv.cones "cones", kv.floats "e" with
